@@ -1120,6 +1120,19 @@ CALLABLES = {
     "u.static_boom": ("static_boom", "unsafe"),
     "u.class_wipe": ("class_wipe", "alters"),
     "u.child.boom": ("child.boom", "unsafe"),
+    # callable objects whose marker is not in the instance __dict__: class attribute, inherited, property, __slots__
+    "cobj_class_alters": ("cobj_class_alters", "alters"),
+    "cobj_class_unsafe": ("cobj_class_unsafe", "unsafe"),
+    "cobj_inherited_unsafe": ("cobj_inherited_unsafe", "unsafe"),
+    "cobj_inherited_alters": ("cobj_inherited_alters", "alters"),
+    "cobj_prop_alters": ("cobj_prop_alters", "alters"),
+    "cobj_prop_unsafe": ("cobj_prop_unsafe", "unsafe"),
+    "cobj_slots_unsafe": ("cobj_slots_unsafe", "unsafe"),
+    "cobj_slots_alters": ("cobj_slots_alters", "alters"),
+    "cobj_getattr_unsafe": ("cobj_getattr_unsafe", "unsafe"),
+    "ACls": ("ACls", "alters"),
+    "u.inherited_boom": ("inherited_boom", "unsafe"),
+    "cobj_plain": ("cobj_plain", "safe"),
 }
 
 ARGS = ["", "1", "1, k=2", "*[1, 2]", "**{'k': 1}", "1, *[2], **{'k': 3}"]
@@ -1188,7 +1201,31 @@ CALL_PATHS = {
     "loop_cycle": ("{% for i in [1] %}{{ loop.cycle(@U@)(@A@) }}{% endfor %}", 1),
     "chained_result": ("{{ u.give(@K@)(@A@) }}", 1),
     "do_stmt": ("{% do @U@(@A@) %}", 0),
+    "macro_caller_kwarg": ("{% macro cm() %}{{ caller(@A@) }}{% endmacro %}{{ cm(caller=@U@) }}", 1),
+    "macro_caller_param_kw": ("{% macro cm(caller=none) %}{{ caller(@A@) }}{% endmacro %}{{ cm(caller=@U@) }}", 1),
+    "macro_caller_param_pos": ("{% macro cm(caller=none) %}{{ caller(@A@) }}{% endmacro %}{{ cm(@U@) }}", 1),
 }
+# the callable bound to a name the engine treats specially: set / with / for target / macro parameter / context variable
+SPECIAL_NAMES = ["caller", "varargs", "kwargs", "self", "super", "loop", "context", "environment", "undefined", "missing",
+                 "resolve", "namespace", "range", "cycler"]
+CTX_BIND = {}
+for _n in SPECIAL_NAMES:
+    # combinations the engine rejects at compile time or answers with its own object are left out:
+    # `loop` cannot be assigned inside a for loop, a `caller` parameter needs a default (covered above),
+    # `self` / `loop` / `caller` / `varargs` / `kwargs` are always the engine's own objects where they exist
+    if _n != "loop":
+        CALL_PATHS["set_named_" + _n] = ("{%% set %s = @U@ %%}{{ %s(@A@) }}" % (_n, _n), 1)
+        CALL_PATHS["for_named_" + _n] = ("{%% for %s in [@U@] %%}{{ %s(@A@) }}{%% endfor %%}" % (_n, _n), 1)
+    CALL_PATHS["with_named_" + _n] = ("{%% with %s = @U@ %%}{{ %s(@A@) }}{%% endwith %%}" % (_n, _n), 1)
+    if _n != "caller":
+        CALL_PATHS["macro_param_named_" + _n] = ("{%% macro cm(%s) %%}{{ %s(@A@) }}{%% endmacro %%}{{ cm(@U@) }}" % (_n, _n), 1)
+    if _n not in ("self", "loop"):
+        CALL_PATHS["ctx_named_" + _n] = ("{{ %s(@A@) }}" % _n, 1)
+        CTX_BIND["ctx_named_" + _n] = _n
+    if _n not in ("self", "loop", "caller", "varargs", "kwargs"):
+        CALL_PATHS["ctx_named_in_macro_" + _n] = ("{%% macro cm() %%}{{ %s(@A@) }}{%% endmacro %%}{{ cm() }}" % _n, 1)
+        CTX_BIND["ctx_named_in_macro_" + _n] = _n
+
 # templates served by the loader
 LOADER_TEMPLATES = {
     "inc_call": "{{ @U@(@A@) }}",
@@ -1239,10 +1276,13 @@ def build_call_case(env, is_async, ckey, pkey, akey, rkey):
     else:
         src = "{{ sfn('pre') }}" + body + "{{ sfn('post') }}"
     loader = {k: fill(v) for k, v in LOADER_TEMPLATES.items() if _q(k) in src}
-    return {
+    case = {
         "env": env, "async": is_async, "src": src, "loader": loader, "callable": pyname, "marking": marking,
         "reached": reached, "levels": levels + (0 if rkey == "plain" else 1), "path": pkey,
     }
+    if pkey in CTX_BIND:
+        case["ctxbind"] = {CTX_BIND[pkey]: pyname}  # context variable of that name holds the recorder
+    return case
 
 
 CALL_ENVS = [("default", False), ("default", True), ("override", False), ("override", True)]
@@ -1260,22 +1300,26 @@ def call_core_cases():
 
 
 def call_full_cases():
-    """The complete product path x callable x argument shape x (one or two nested wrappers) x environment
-    (thorough tier)."""
+    """Thorough tier: the complete product path x callable x argument shape x single wrapper x environment, plus
+    every pair of nested wrappers with one (rotating) argument shape."""
     seen = set()
     rks = sorted(REACH)
-    wrappers = rks + [a + "+" + b for a in rks for b in rks if a != "plain" and b != "plain"]
+    nested = [a + "+" + b for a in rks for b in rks if a != "plain" and b != "plain"]
+    k = 0
     for p in sorted(CALL_PATHS):
         for c in sorted(CALLABLES):
-            for a in range(len(ARGS)):
-                for r in wrappers:
-                    for env, is_async in CALL_ENVS:
-                        case = build_call_case(env, is_async, c, p, a, r)
-                        key = (case["src"], env, is_async)
-                        if key in seen:  # wrappers collapse to "plain" for block-defining paths
-                            continue
-                        seen.add(key)
-                        yield case
+            combos = [(a, r) for a in range(len(ARGS)) for r in rks]
+            for r in nested:
+                k += 1
+                combos.append((k % len(ARGS), r))
+            for a, r in combos:
+                for env, is_async in CALL_ENVS:
+                    case = build_call_case(env, is_async, c, p, a, r)
+                    key = (case["src"], env, is_async)
+                    if key in seen:  # wrappers collapse to "plain" for block-defining paths
+                        continue
+                    seen.add(key)
+                    yield case
 
 
 @st.composite
